@@ -71,7 +71,9 @@ theorem storeOk_aset {hash : List Entry → Bytes} (hh : HashOk hash)
     {S : Assoc Bytes (List Entry)} (hS : Hashed hash S) (hok : StoreOk S) {t : List Entry}
     (ht : TreeOk t) (hc : Closed S t) : StoreOk (aset (hash t) t S) := by
   have hm := storeMono_aset hh hS t
-  constructor
+  refine ⟨?_, ?_, ?_⟩
+  rotate_left 2
+  · rw [aget_aset_ne _ _ (Ne.symm (hh.nonnull t))]; exact hok.nonull
   · intro id x hx
     by_cases hid : id = hash t
     · subst hid
@@ -99,8 +101,11 @@ theorem null_not_stored {hash : List Entry → Bytes} (hh : HashOk hash)
 /-! ### reading through the store alone -/
 
 theorem resolve_storeEd (S : Assoc Bytes (List Entry)) (pb : Path) (oid : Bytes) :
-    resolve (storeEd S) pb oid = if oid == emptyTreeId then some [] else aget oid S := by
+    resolve (storeEd S) pb oid = if noFind oid then some [] else aget oid S := by
   simp [resolve, storeEd, aget]
+
+theorem noFind_false {oid : Bytes} (h1 : oid ≠ emptyTreeId) (h2 : oid ≠ nullId) : noFind oid = false := by
+  simp [noFind, h1, h2]
 
 /-- growing the store does not change what a closed tree denotes -/
 theorem lookup_store_mono {S S' : Assoc Bytes (List Entry)} (hS : StoreOk S) (hm : StoreMono S S')
@@ -120,7 +125,7 @@ theorem lookup_store_mono {S S' : Assoc Bytes (List Entry)} (hS : StoreOk S) (hm
         simp only
         by_cases hd : e.isTree = true
         · simp only [hd, if_true, resolve_storeEd]
-          by_cases he : e.oid == emptyTreeId
+          by_cases he : noFind e.oid = true
           · simp only [he, if_true]
             rw [lookupIn_nil, lookupIn_nil]
           · simp only [he, Bool.false_eq_true, if_false]
@@ -151,7 +156,7 @@ theorem lookup_store_path (S : Assoc Bytes (List Entry)) (q : Path) :
         simp only
         by_cases hd : e.isTree = true
         · simp only [hd, if_true, resolve_storeEd]
-          cases (if (e.oid == emptyTreeId) = true then some [] else aget e.oid S) with
+          cases (if noFind e.oid = true then some [] else aget e.oid S) with
           | none => rfl
           | some ts => exact ih ts _ _
         · simp [hd]
@@ -323,7 +328,7 @@ theorem EntryOut.mono {c0 : Assoc Path (List Entry)} {s0 S S' : Assoc Bytes (Lis
         simp only [entrySem]
         by_cases hd : e'.isTree = true
         · simp only [hd, if_true, resolve_storeEd]
-          by_cases he : e'.oid == emptyTreeId
+          by_cases he : noFind e'.oid = true
           · simp only [he, if_true]
             rw [lookupIn_nil, lookupIn_nil]
           · simp only [he, Bool.false_eq_true, if_false]
@@ -368,10 +373,26 @@ theorem wstep_spec {hash : List Entry → Bytes} (hh : HashOk hash) {c0 : Assoc 
       have hc0 : aget (P ++ [e.name]) c0 = none := by rw [← hagree _ (List.prefix_refl _)]; exact hc
       have hres := hclosed hd
       simp only [resolve, hc0] at hres
-      have hne : (e.oid == emptyTreeId) = false := by
-        cases h : e.oid == emptyTreeId with
-        | false => rfl
-        | true => exact absurd (by simpa using h) (hgood hd).1
+      by_cases hnull : e.oid = nullId
+      · -- a null-id placeholder directory nobody entered: it is dropped, and it held nothing
+        have hnf : noFind e.oid = true := by simp [noFind, hnull]
+        have hr' : r = (st, none) := by rw [hr]; simp [hnull]
+        rw [hr']
+        refine ⟨StoreMono.refl _, hok, hhashed, hall, fun _ _ => rfl, Nat.le_refl _, ?_, ?_, ?_, ?_⟩
+        · intro K hK
+          rw [hagree K hK]
+          exact hsnap.below (P ++ [e.name]) hc0 K hK
+        · intro e' ho; cases ho
+        · intro e' ho; cases ho
+        · intro qs
+          cases qs with
+          | nil => simp [entrySem, leafOf, hd]
+          | cons m rest =>
+            have hR : resolve ⟨c0, s0, []⟩ (P ++ [e.name]) e.oid = some [] := by
+              simp [resolve, hc0, hnf]
+            simp only [entrySem, hd, if_true, hR]
+            rw [lookupIn_nil]
+      have hne : noFind e.oid = false := noFind_false (hgood hd).1 hnull
       simp only [hne, Bool.false_eq_true, if_false] at hres
       cases hs : aget e.oid s0 with
       | none => simp [hs] at hres
@@ -473,10 +494,7 @@ theorem wstep_spec {hash : List Entry → Bytes} (hh : HashOk hash) {c0 : Assoc 
           intro h
           rw [← hh.empty] at h
           exact hne (hh.inj _ _ h)
-        have hnE' : (hash r0.2 == emptyTreeId) = false := by
-          cases h : hash r0.2 == emptyTreeId with
-          | false => rfl
-          | true => exact absurd (by simpa using h) hnE
+        have hnE' : noFind (hash r0.2) = false := noFind_false hnE (hh.nonnull r0.2)
         have hr : r = ({ r0.1 with store := aset (hash r0.2) r0.2 r0.1.store, calls := r0.1.calls + 1 },
             some { e with oid := hash r0.2 }) := by
           simp [r, wstep, hd, hc, hr0, hempty, hnn]
